@@ -897,6 +897,68 @@ def compare_with_model(traces, model_logs):
     return diff
 
 
+# ======================================================================= Apalache (C05)
+
+def apalache_roll(V, thorough):
+    """Unbounded complement for C05: the inductive invariant of spec/RollRing.tla (the ring
+    holds exactly the windows Windows(W, S) has open, for every stream length) is
+    discharged by Apalache for fixed geometries: Init => IndInv (length 0) and
+    IndInv /\\ Next => IndInv' (length 1); a broken density must be refuted."""
+    import shutil
+    import subprocess
+    geos = [(w, s) for w in range(1, 7) for s in range(1, 7) if w != s] if thorough \
+        else [(3, 2), (5, 2), (2, 3)]
+    res = {'obligations': 0, 'discharged': 0, 'geometries': len(geos), 'failed': []}
+    if shutil.which('apalache-mc') is None:
+        V.note('apalache-mc not available: the inductive invariant of RollRing was not checked')
+        return res
+    with C.scratch('rxsci-verif.apa.') as d:
+        shutil.copy(os.path.join(C.SPEC_DIR, 'RollRing.tla'), d)
+        bad = open(os.path.join(d, 'RollRing.tla')).read()
+        bad = bad.replace('MODULE RollRing ', 'MODULE RollRingBad ').replace(
+            'Density == (W \\div S) + (IF W % S = 0 THEN 0 ELSE 1)',
+            'Density == IF W \\div S = 0 THEN 1 ELSE W \\div S')
+        open(os.path.join(d, 'RollRingBad.tla'), 'w').write(bad)
+
+        def mc_module(name, base, w, s):
+            open(os.path.join(d, name + '.tla'), 'w').write(
+                '---- MODULE %s ----\nEXTENDS Integers\nVARIABLES\n    \\* @type: Int;\n    n,\n'
+                '    \\* @type: Int -> Int;\n    w\nINSTANCE %s WITH W <- %d, S <- %d\n====\n'
+                % (name, base, w, s))
+
+        def run(name, init, length):
+            p = subprocess.run(['apalache-mc', 'check', '--init=' + init, '--inv=Safety',
+                                '--length=%d' % length, '--out-dir=' + os.path.join(d, 'out'),
+                                name + '.tla'], cwd=d, stdout=subprocess.PIPE,
+                               stderr=subprocess.STDOUT, text=True, timeout=600)
+            return 'The outcome is: NoError' in p.stdout, 'The outcome is: Error' in p.stdout
+
+        jobs = []
+        for (w, s) in geos:
+            name = 'MC_%d_%d' % (w, s)
+            mc_module(name, 'RollRing', w, s)
+            jobs.append((name, 'Init', 0, (w, s)))
+            jobs.append((name, 'IndInit', 1, (w, s)))
+        mc_module('MC_bad', 'RollRingBad', 3, 2)
+        outs = C.par([lambda j=j: run(j[0], j[1], j[2]) for j in jobs]
+                     + [lambda: run('MC_bad', 'IndInit', 1)], max_workers=6)
+    for j, (ok, err) in zip(jobs, outs[:-1]):
+        res['obligations'] += 1
+        if ok:
+            res['discharged'] += 1
+        else:
+            res['failed'].append({'geometry': j[3], 'obligation': j[1]})
+    if not outs[-1][1]:
+        raise C.MachineryError('Apalache did not refute the inductive invariant for a ring without '
+                               'the ceiling in density: the proof obligation is vacuous')
+    res['broken_density_refuted'] = True
+    if res['failed']:
+        raise C.MachineryError('RollRing: inductive invariant not discharged for %s (the integer model '
+                               'and its invariant disagree; nothing is claimed about the code from this)'
+                               % res['failed'])
+    return res
+
+
 # ======================================================================= registry
 
 def _scan_add(reduce=False):
@@ -1044,6 +1106,10 @@ def main(prop):
                                                              kind=Mo.get('kind', 'int'),
                                                              deviations=Mo['deviations'])
             V.phase('model checking (implementation model)')
+        apa = None
+        if prop == 'C05':
+            apa = apalache_roll(V, thorough)
+            V.phase('Apalache: inductive invariant of the roll ring')
         cases = replay_cases + P['cases'](rng, thorough)
         stats = {}
         traces = MC.judge(V, cases, P['relevant'], stats, family=prop)
@@ -1078,6 +1144,7 @@ def main(prop):
                                                               'plain_path_traces')},
             'distinct_pipelines': len({json.dumps(t['pipe'], sort_keys=True) for t in traces}),
             'tlc_behaviours_replayed': len(replay_cases),
+            **({'apalache_inductive_invariant': apa} if apa else {}),
             'impl_model_in_sync': out_of_sync == 0,
             'source_events': sum(len(MC.log_of(t, [0])) for t in traces),
         }
